@@ -154,8 +154,13 @@ where
                 }
             },
             OperationType::RestoreActiveBlob => {
-                if let Err(e) = self.inner.restore_active_blob().await {
-                    warn!("active blob was not restored in background: {:#}", e);
+                match self.inner.restore_active_blob().await {
+                    Ok(dirty_bytes) => {
+                        if self.inner.should_try_fsync(dirty_bytes) {
+                            self.try_run_fsync_task().await;
+                        }
+                    },
+                    Err(e) => warn!("active blob was not restored in background: {:#}", e),
                 }
             },
             OperationType::TryDumpBlobIndexes => {
